@@ -132,7 +132,9 @@ func urlValueOK(m *Model, log *Log, v string) (bool, string) {
 			return false, "relative reference although relative URLs are not allowed"
 		}
 	}
-	if sch != "data" && hasCtlOrSpace(v) {
+	if hasCtlOrSpace(v) {
+		// (no exception for data: URLs: the library's exception is for line-wrapped base64 payloads,
+		// whose line breaks it removes; what survives must be free of white space like any URL)
 		return false, "value contains whitespace or a control character"
 	}
 	return true, ""
